@@ -788,4 +788,488 @@ theorem traceLoop_live {orig entry B} (ho : Bytes orig) : ∀ (fuel : Nat) (s : 
         · omega
 
 
+/-! ### 6. the commands on the three kinds of prompt states -/
+
+theorem hasKey_filter (u : List (UKey × Kind)) (k k' : UKey) :
+    hasKey (u.filter (·.1 != k)) k' = (hasKey u k' && k' != k) := by
+  unfold hasKey
+  rw [List.any_filter]
+  by_cases hk : k' = k
+  · subst hk
+    simp only [bne_self_eq_false, Bool.and_false, List.any_eq_false]
+    intro x _; by_cases hx : x.1 = k' <;> simp [hx]
+  · have : (k' != k) = true := by simpa using hk
+    rw [this, Bool.and_true]
+    congr 1; funext x
+    by_cases hx : x.1 = k'
+    · subst hx; simp [this]
+    · have : (x.1 == k') = false := by simpa using hx
+      simp [this]
+
+theorem hasKey_filter_append' (u : List (UKey × Kind)) (k : UKey) (kind : Kind) (k' : UKey) :
+    hasKey (u.filter (·.1 != k) ++ [(k, kind)]) k' = (hasKey u k' || k == k') :=
+  hasKey_filter_append u (k, kind) k'
+
+theorem Live.pokes {orig entry B s} (h : Live orig entry B s) : Live orig entry B { s with pokes := [] } :=
+  ⟨h.inv.congr rfl rfl rfl rfl, h.st, h.un, h.kinds, h.notEntry⟩
+
+/-- before `start`: nothing is patched; the uninit list holds the entry breakpoint (global key) and one
+relocated-key user entry per address of `B` -/
+structure Fresh (orig : Code) (entry : Addr) (B : List Addr) (s : St) : Prop where
+  st : s.status = .unload
+  act : s.active = []
+  code : s.code = orig
+  idx : s.idx = 0
+  ent : ((⟨true, entry⟩ : UKey), Kind.entry) ∈ s.uninit
+  others : ∀ u ∈ s.uninit, u = ((⟨true, entry⟩ : UKey), Kind.entry) ∨
+    (u.1.global = false ∧ u.2 = .user ∧ u.1.addr ≠ entry)
+  mem : ∀ a, a ∈ B ↔ hasKey s.uninit ⟨false, a⟩ = true
+
+/-- after the exit of the debuggee: no active breakpoint; `late` = addresses added since (relocated keys) -/
+structure Gone (late : List Addr) (s : St) : Prop where
+  st : s.status = .exited
+  act : s.active = []
+  mem : ∀ a, a ∈ late ↔ hasKey s.uninit ⟨false, a⟩ = true
+
+theorem Fresh.pokes {orig entry B s} (h : Fresh orig entry B s) : Fresh orig entry B { s with pokes := [] } :=
+  ⟨h.st, h.act, h.code, h.idx, h.ent, h.others, h.mem⟩
+
+theorem Gone.pokes {late s} (h : Gone late s) : Gone late { s with pokes := [] } := ⟨h.st, h.act, h.mem⟩
+
+theorem Fresh.inv {orig entry B s} (h : Fresh orig entry B s) : Inv orig s := by
+  refine ⟨?_, ?_, ?_, ?_, ?_⟩
+  · intro a; rw [h.act, h.code]; rfl
+  · rw [h.act]; intro b hb; cases hb
+  · rw [h.act]; exact List.nodup_nil
+  · rw [h.act]; intro b hb; cases hb
+  · rw [h.idx]; exact Nat.zero_le _
+
+theorem Fresh.notEntry {orig entry B s} (h : Fresh orig entry B s) : entry ∉ B := by
+  intro hb
+  have := (h.mem entry).mp hb
+  simp only [hasKey, List.any_eq_true] at this
+  obtain ⟨u, hu, hk⟩ := this
+  have hk' : u.1 = ⟨false, entry⟩ := by simpa using hk
+  rcases h.others u hu with rfl | ⟨_, _, hne⟩
+  · simp at hk'
+  · rw [hk'] at hne; exact hne rfl
+
+/-! #### `break` -/
+
+theorem mem_cons_iff_hasKey {B : List Addr} {u : List (UKey × Kind)} {a : Addr} {kind : Kind}
+    (h : ∀ x, x ∈ B ↔ hasKey u ⟨false, x⟩ = true) (x : Addr) :
+    x ∈ a :: B ↔ hasKey (u.filter (·.1 != (⟨false, a⟩ : UKey)) ++ [((⟨false, a⟩ : UKey), kind)]) ⟨false, x⟩ = true := by
+  rw [hasKey_filter_append', List.mem_cons, h x]
+  by_cases hx : x = a
+  · subst hx; simp
+  · have : ((⟨false, a⟩ : UKey) == ⟨false, x⟩) = false := by
+      simp; exact fun e => hx e.symm
+    simp [hx, this]
+
+theorem exec_brk_fresh {orig entry B s} (h : Fresh orig entry B s) (a : Addr) (ha : a ≠ entry) :
+    (exec s (.brk a)).2 = .ok ∧ Fresh orig entry (a :: B) (exec s (.brk a)).1 ∧
+    (exec s (.brk a)).1.τ = s.τ ∧ (exec s (.brk a)).1.exitCode = s.exitCode := by
+  have e : exec s (.brk a) = (addUninit { s with pokes := [] } ⟨false, a⟩ .user, .ok) := by
+    simp only [exec, h.st]
+  rw [e]
+  refine ⟨rfl, ⟨h.st, h.act, h.code, h.idx, ?_, ?_, ?_⟩, rfl, rfl⟩
+  · show _ ∈ s.uninit.filter _ ++ _
+    refine List.mem_append_left _ (List.mem_filter.mpr ⟨h.ent, ?_⟩)
+    simp
+  · intro u hu
+    have hu' : u ∈ s.uninit.filter (·.1 != (⟨false, a⟩ : UKey)) ++ [((⟨false, a⟩ : UKey), Kind.user)] := hu
+    rcases List.mem_append.mp hu' with hu | hu
+    · exact h.others u (List.mem_filter.mp hu).1
+    · simp only [List.mem_singleton] at hu; subst hu; exact Or.inr ⟨rfl, rfl, ha⟩
+  · exact mem_cons_iff_hasKey h.mem
+
+theorem exec_brk_gone {late s} (h : Gone late s) (a : Addr) :
+    (exec s (.brk a)).2 = .ok ∧ Gone (a :: late) (exec s (.brk a)).1 ∧
+    (exec s (.brk a)).1.τ = s.τ ∧ (exec s (.brk a)).1.exitCode = s.exitCode := by
+  have e : exec s (.brk a) = (addUninit { s with pokes := [] } ⟨false, a⟩ .user, .ok) := by
+    simp only [exec, h.st]
+  rw [e]
+  exact ⟨rfl, ⟨h.st, h.act, mem_cons_iff_hasKey h.mem⟩, rfl, rfl⟩
+
+theorem exec_brk_live {orig entry B s} (ho : Bytes orig) (h : Live orig entry B s) (a : Addr) (ha : a ≠ entry) :
+    (exec s (.brk a)).2 = .ok ∧ Live orig entry (a :: B) (exec s (.brk a)).1 ∧
+    (exec s (.brk a)).1.τ = s.τ ∧ (exec s (.brk a)).1.exitCode = s.exitCode ∧
+    (exec s (.brk a)).1.idx = s.idx := by
+  have e : exec s (.brk a) = (addAndEnable { s with pokes := [] } { addr := a, kind := .user }, .ok) := by
+    simp only [exec, h.st]
+  rw [e]
+  have h0 := h.pokes
+  have hf := addAndEnable_frame { s with pokes := [] } { addr := a, kind := .user }
+  refine ⟨rfl, ⟨addAndEnable_inv h0.inv ho _, hf.status.trans h0.st, hf.uninit.trans h0.un, ?_, ?_⟩,
+    hf.τ, hf.exitCode, hf.idx⟩
+  · intro x
+    unfold kindAt
+    rw [addAndEnable_find? h0.inv ho]
+    have hk := h0.kinds x
+    unfold kindAt at hk
+    by_cases hx : x = a
+    · subst hx; simp [ha]
+    · simp only [hx, if_false, List.mem_cons, false_or]; exact hk
+  · intro hb
+    rcases List.mem_cons.mp hb with e | hb
+    · exact ha e.symm
+    · exact h.notEntry hb
+
+/-! #### `remove` -/
+
+theorem mem_filter_iff_hasKey {B : List Addr} {u : List (UKey × Kind)} {a : Addr}
+    (h : ∀ x, x ∈ B ↔ hasKey u ⟨false, x⟩ = true) (x : Addr) :
+    x ∈ B.filter (· != a) ↔ hasKey (u.filter (·.1 != (⟨false, a⟩ : UKey))) ⟨false, x⟩ = true := by
+  rw [hasKey_filter, List.mem_filter, h x]
+  by_cases hx : x = a
+  · subst hx; simp
+  · simp [hx]
+
+theorem filter_ne_of_not_mem {B : List Addr} {a : Addr} (h : a ∉ B) (x : Addr) :
+    x ∈ B.filter (· != a) ↔ x ∈ B := by
+  rw [List.mem_filter]
+  constructor
+  · exact fun h => h.1
+  · intro hx; refine ⟨hx, ?_⟩
+    have : x ≠ a := fun e => h (e ▸ hx)
+    simpa using this
+
+theorem exec_remove_eq (s : St) (a : Addr) :
+    exec s (.remove a) = ((removeByAddr { s with pokes := [] } ⟨false, a⟩).1,
+      if (removeByAddr { s with pokes := [] } ⟨false, a⟩).2 then .ok else .none) := rfl
+
+theorem remove_fresh {orig entry B s} (h : Fresh orig entry B s) (a : Addr) :
+    (removeByAddr s ⟨false, a⟩).2 = decide (a ∈ B) ∧
+    Fresh orig entry (B.filter (· != a)) (removeByAddr s ⟨false, a⟩).1 ∧
+    (removeByAddr s ⟨false, a⟩).1.τ = s.τ ∧ (removeByAddr s ⟨false, a⟩).1.exitCode = s.exitCode := by
+  by_cases hk : hasKey s.uninit ⟨false, a⟩ = true
+  · have hmem : a ∈ B := (h.mem a).mpr hk
+    rw [removeByAddr_uninit s _ hk]
+    refine ⟨by simp [hmem], ⟨h.st, h.act, h.code, h.idx, ?_, ?_, mem_filter_iff_hasKey h.mem⟩, rfl, rfl⟩
+    · exact List.mem_filter.mpr ⟨h.ent, by simp⟩
+    · intro u hu; exact h.others u (List.mem_filter.mp hu).1
+  · have hk' : hasKey s.uninit ⟨false, a⟩ = false := Bool.eq_false_iff.mpr hk
+    have hmem : a ∉ B := fun hb => hk ((h.mem a).mp hb)
+    rw [removeByAddr_none s a hk' (by rw [h.act]; rfl)]
+    refine ⟨by simp [hmem], ⟨h.st, h.act, h.code, h.idx, h.ent, h.others, ?_⟩, rfl, rfl⟩
+    intro x; rw [filter_ne_of_not_mem hmem]; exact h.mem x
+
+theorem exec_remove_fresh {orig entry B s} (h : Fresh orig entry B s) (a : Addr) :
+    (exec s (.remove a)).2 = (if a ∈ B then .ok else .none) ∧
+    Fresh orig entry (B.filter (· != a)) (exec s (.remove a)).1 ∧
+    (exec s (.remove a)).1.τ = s.τ ∧ (exec s (.remove a)).1.exitCode = s.exitCode := by
+  obtain ⟨r1, r2, r3, r4⟩ := remove_fresh h.pokes a
+  rw [exec_remove_eq]
+  refine ⟨?_, r2, r3, r4⟩
+  show (if _ then _ else _) = _
+  rw [r1]; by_cases hm : a ∈ B <;> simp [hm]
+
+theorem remove_gone {late s} (h : Gone late s) (a : Addr) :
+    (removeByAddr s ⟨false, a⟩).2 = decide (a ∈ late) ∧
+    Gone (late.filter (· != a)) (removeByAddr s ⟨false, a⟩).1 ∧
+    (removeByAddr s ⟨false, a⟩).1.τ = s.τ ∧ (removeByAddr s ⟨false, a⟩).1.exitCode = s.exitCode := by
+  by_cases hk : hasKey s.uninit ⟨false, a⟩ = true
+  · have hmem : a ∈ late := (h.mem a).mpr hk
+    rw [removeByAddr_uninit s _ hk]
+    exact ⟨by simp [hmem], ⟨h.st, h.act, mem_filter_iff_hasKey h.mem⟩, rfl, rfl⟩
+  · have hk' : hasKey s.uninit ⟨false, a⟩ = false := Bool.eq_false_iff.mpr hk
+    have hmem : a ∉ late := fun hb => hk ((h.mem a).mp hb)
+    rw [removeByAddr_none s a hk' (by rw [h.act]; rfl)]
+    refine ⟨by simp [hmem], ⟨h.st, h.act, ?_⟩, rfl, rfl⟩
+    intro x; rw [filter_ne_of_not_mem hmem]; exact h.mem x
+
+theorem exec_remove_gone {late s} (h : Gone late s) (a : Addr) :
+    (exec s (.remove a)).2 = (if a ∈ late then .ok else .none) ∧
+    Gone (late.filter (· != a)) (exec s (.remove a)).1 ∧
+    (exec s (.remove a)).1.τ = s.τ ∧ (exec s (.remove a)).1.exitCode = s.exitCode := by
+  obtain ⟨r1, r2, r3, r4⟩ := remove_gone h.pokes a
+  rw [exec_remove_eq]
+  refine ⟨?_, r2, r3, r4⟩
+  show (if _ then _ else _) = _
+  rw [r1]; by_cases hm : a ∈ late <;> simp [hm]
+
+theorem remove_live {orig entry B s} (ho : Bytes orig) (h : Live orig entry B s) (a : Addr)
+    (ha : a ≠ entry) :
+    (removeByAddr s ⟨false, a⟩).2 = decide (a ∈ B) ∧
+    Live orig entry (B.filter (· != a)) (removeByAddr s ⟨false, a⟩).1 ∧
+    (removeByAddr s ⟨false, a⟩).1.τ = s.τ ∧ (removeByAddr s ⟨false, a⟩).1.exitCode = s.exitCode ∧
+    (removeByAddr s ⟨false, a⟩).1.idx = s.idx ∧ (removeByAddr s ⟨false, a⟩).1.code a = orig a := by
+  have hk : hasKey s.uninit ⟨false, a⟩ = false := by rw [h.un]; rfl
+  have hkind := h.kinds a
+  rw [if_neg ha] at hkind
+  unfold kindAt at hkind
+  cases hf : find? s.active a with
+  | none =>
+    rw [hf] at hkind
+    have hmem : a ∉ B := by
+      intro hb; rw [if_pos hb] at hkind; cases hkind
+    rw [removeByAddr_none s a hk hf]
+    refine ⟨by simp [hmem], ⟨h.inv, h.st, h.un, ?_, ?_⟩, rfl, rfl, rfl, ?_⟩
+    · intro x
+      rw [h.kinds x]
+      by_cases hx : x = entry
+      · simp [hx]
+      · simp only [hx, if_false]
+        by_cases hb : x ∈ B
+        · rw [if_pos hb, if_pos ((filter_ne_of_not_mem hmem x).mpr hb)]
+        · rw [if_neg hb, if_neg (fun h' => hb ((filter_ne_of_not_mem hmem x).mp h'))]
+    · intro hb; exact h.notEntry (List.mem_filter.mp hb).1
+    · rw [h.inv.text' a, hf]; rfl
+  | some b =>
+    rw [hf] at hkind
+    have hmem : a ∈ B := by
+      apply Classical.byContradiction; intro hb; rw [if_neg hb] at hkind; cases hkind
+    obtain ⟨r1, r2, r3, r4, r5⟩ := removeByAddr_some h.inv ho a b hk hf
+    refine ⟨by rw [r1]; simp [hmem], ⟨r3, r2.status.trans h.st, r2.uninit.trans h.un, ?_, ?_⟩,
+      r2.τ, r2.exitCode, r2.idx, ?_⟩
+    · intro x
+      unfold kindAt
+      rw [r4 x]
+      have hkx := h.kinds x
+      unfold kindAt at hkx
+      by_cases hx : x = a
+      · subst hx; simp [ha]
+      · simp only [hx, if_false]
+        rw [hkx]
+        by_cases hxe : x = entry
+        · simp [hxe]
+        · simp [hxe, List.mem_filter, hx]
+    · intro hb; exact h.notEntry (List.mem_filter.mp hb).1
+    · rw [r5, set_apply]; simp
+
+theorem exec_remove_live {orig entry B s} (ho : Bytes orig) (h : Live orig entry B s) (a : Addr)
+    (ha : a ≠ entry) :
+    (exec s (.remove a)).2 = (if a ∈ B then .ok else .none) ∧
+    Live orig entry (B.filter (· != a)) (exec s (.remove a)).1 ∧
+    (exec s (.remove a)).1.τ = s.τ ∧ (exec s (.remove a)).1.exitCode = s.exitCode ∧
+    (exec s (.remove a)).1.idx = s.idx ∧ (exec s (.remove a)).1.code a = orig a := by
+  obtain ⟨r1, r2, r3, r4, r5, r6⟩ := remove_live ho h.pokes a ha
+  rw [exec_remove_eq]
+  refine ⟨?_, r2, r3, r4, r5, r6⟩
+  show (if _ then _ else _) = _
+  rw [r1]; by_cases hm : a ∈ B <;> simp [hm]
+
+/-! #### `start` and `continue` in the wrong state -/
+
+theorem exec_start_live {orig entry B s} (h : Live orig entry B s) :
+    exec s .start = ({ s with pokes := [] }, .err) := by simp only [exec, h.st]
+theorem exec_start_gone {late s} (h : Gone late s) :
+    exec s .start = ({ s with pokes := [] }, .err) := by simp only [exec, h.st]
+theorem exec_cont_fresh {orig entry B s} (h : Fresh orig entry B s) :
+    exec s .cont = ({ s with pokes := [] }, .err) := by simp only [exec, h.st]
+theorem exec_cont_gone {late s} (h : Gone late s) :
+    exec s .cont = ({ s with pokes := [] }, .err) := by simp only [exec, h.st]
+
+
+/-! #### `continue` and `start` -/
+
+/-- the answer of a run that lands on position `j` -/
+abbrev answerAt (τ : List Addr) (exitCode : Nat) (j : Nat) : Out :=
+  match τ[j]? with
+  | some a => .stop a
+  | none => .exit exitCode
+
+theorem gone_of_exited {s : St} (h1 : s.status = .exited) (h2 : s.active = [])
+    (h3 : ∀ k : UKey, k.global = false → hasKey s.uninit k = false) : Gone [] s :=
+  ⟨h1, h2, fun a => by rw [h3 ⟨false, a⟩ rfl]; simp⟩
+
+theorem cont_live {orig entry B s} (ho : Bytes orig) (h : Live orig entry B s)
+    (hcc : ∀ a ∈ s.τ, orig a ≠ INT3) (hidx : s.idx < s.τ.length) :
+    (traceLoop (fuelFor s) (stepOverBreakpoint s)).1.τ = s.τ ∧
+    (traceLoop (fuelFor s) (stepOverBreakpoint s)).1.exitCode = s.exitCode ∧
+    (traceLoop (fuelFor s) (stepOverBreakpoint s)).1.idx = firstFrom (inB B) s.τ (s.idx + 1) ∧
+    (traceLoop (fuelFor s) (stepOverBreakpoint s)).2
+      = answerAt s.τ s.exitCode (firstFrom (inB B) s.τ (s.idx + 1)) ∧
+    (firstFrom (inB B) s.τ (s.idx + 1) < s.τ.length →
+      Live orig entry B (traceLoop (fuelFor s) (stepOverBreakpoint s)).1) ∧
+    (s.τ.length ≤ firstFrom (inB B) s.τ (s.idx + 1) →
+      Gone [] (traceLoop (fuelFor s) (stepOverBreakpoint s)).1) := by
+  have hp : pc s = some s.τ[s.idx] := by unfold pc; exact List.getElem?_eq_getElem hidx
+  have hpm : s.τ[s.idx] ∈ s.τ := List.getElem_mem hidx
+  cases hf : find? s.active s.τ[s.idx] with
+  | none =>
+    rw [stepOver_noop_find s _ hp hf]
+    have hk := h.kinds s.τ[s.idx]
+    unfold kindAt at hk
+    rw [hf] at hk
+    have hnb : inB B s.τ[s.idx] = false := by
+      by_cases he : s.τ[s.idx] = entry
+      · rw [if_pos he] at hk; cases hk
+      · rw [if_neg he] at hk
+        by_cases hb : s.τ[s.idx] ∈ B
+        · rw [if_pos hb] at hk; cases hk
+        · simpa [inB] using hb
+    obtain ⟨r1, r2, r3, r4, r5, r6⟩ := traceLoop_live ho (fuelFor s) s h hcc (by unfold fuelFor; omega)
+    rw [firstFrom_skip _ _ _ hidx hnb] at r3 r4 r5 r6
+    exact ⟨r1, r2, r3, r4, r5, fun hh => gone_of_exited (r6 hh).1 (r6 hh).2.1 (r6 hh).2.2⟩
+  | some b =>
+    obtain ⟨g1, _, g3, g4, g5, g6, g7, g8⟩ := stepOver_at h.inv ho _ b hp hf
+    rw [if_neg (hcc _ hpm)] at g4
+    have hlive : Live orig entry B (stepOverBreakpoint s) := h.of_same g1 g6 g7 g3
+    obtain ⟨r1, r2, r3, r4, r5, r6⟩ := traceLoop_live ho (fuelFor s) _ hlive (by rw [g5]; exact hcc)
+      (by rw [g5]; unfold fuelFor; omega)
+    rw [g5, g4] at r3 r4 r5 r6
+    rw [g8] at r4
+    exact ⟨r1.trans g5, r2.trans g8, r3, r4, r5, fun hh => gone_of_exited (r6 hh).1 (r6 hh).2.1 (r6 hh).2.2⟩
+
+theorem exec_cont_live {orig entry B s} (ho : Bytes orig) (h : Live orig entry B s)
+    (hcc : ∀ a ∈ s.τ, orig a ≠ INT3) (hidx : s.idx < s.τ.length) :
+    (exec s .cont).1.τ = s.τ ∧ (exec s .cont).1.exitCode = s.exitCode ∧
+    (exec s .cont).1.idx = firstFrom (inB B) s.τ (s.idx + 1) ∧
+    (exec s .cont).2 = answerAt s.τ s.exitCode (firstFrom (inB B) s.τ (s.idx + 1)) ∧
+    (firstFrom (inB B) s.τ (s.idx + 1) < s.τ.length → Live orig entry B (exec s .cont).1) ∧
+    (s.τ.length ≤ firstFrom (inB B) s.τ (s.idx + 1) → Gone [] (exec s .cont).1) := by
+  have e : exec s .cont = traceLoop (fuelFor { s with pokes := [] }) (stepOverBreakpoint { s with pokes := [] }) := by
+    simp only [exec, h.st]
+  rw [e]
+  exact cont_live ho h.pokes hcc hidx
+
+/-- `enable_entry_breakpoint` when the only entry-kind uninit breakpoint is the one at `entry` -/
+theorem enableEntry_eq (s : St) (entry : Addr)
+    (ent : ((⟨true, entry⟩ : UKey), Kind.entry) ∈ s.uninit)
+    (others : ∀ u ∈ s.uninit, u = ((⟨true, entry⟩ : UKey), Kind.entry) ∨
+      (u.1.global = false ∧ u.2 = .user ∧ u.1.addr ≠ entry)) :
+    enableEntry s = addAndEnable { s with uninit := s.uninit.filter (·.1 != (⟨true, entry⟩ : UKey)) }
+      { addr := entry, kind := .entry } := by
+  unfold enableEntry
+  cases hf : s.uninit.find? (·.2 == Kind.entry) with
+  | none =>
+    have := List.find?_eq_none.mp hf _ ent
+    simp at this
+  | some u =>
+    have hu := List.mem_of_find?_eq_some hf
+    have hk : u.2 = .entry := by simpa using List.find?_some hf
+    rcases others u hu with rfl | ⟨_, hk', _⟩
+    · rfl
+    · rw [hk] at hk'; cases hk'
+
+theorem start_fresh {orig entry B s} (ho : Bytes orig) (h : Fresh orig entry B s)
+    (hcc : ∀ a ∈ s.τ, orig a ≠ INT3) (hhead : s.τ.head? = some entry) :
+    (traceLoop (fuelFor s) (enableEntry { s with status := .inProgress })).1.τ = s.τ ∧
+    (traceLoop (fuelFor s) (enableEntry { s with status := .inProgress })).1.exitCode = s.exitCode ∧
+    (traceLoop (fuelFor s) (enableEntry { s with status := .inProgress })).1.idx = firstFrom (inB B) s.τ 0 ∧
+    (traceLoop (fuelFor s) (enableEntry { s with status := .inProgress })).2
+      = answerAt s.τ s.exitCode (firstFrom (inB B) s.τ 0) ∧
+    (firstFrom (inB B) s.τ 0 < s.τ.length →
+      Live orig entry B (traceLoop (fuelFor s) (enableEntry { s with status := .inProgress })).1) ∧
+    (s.τ.length ≤ firstFrom (inB B) s.τ 0 →
+      Gone [] (traceLoop (fuelFor s) (enableEntry { s with status := .inProgress })).1) := by
+  -- the trace starts at the entry point
+  obtain ⟨hlen, h0e⟩ : ∃ hlen : 0 < s.τ.length, s.τ[0] = entry := by
+    have : s.τ[0]? = some entry := by rw [← List.head?_eq_getElem?]; exact hhead
+    exact List.getElem?_eq_some_iff.mp this
+  have hentB := h.notEntry
+  -- state after `enable_entry_breakpoint`
+  let s' : St := { s with status := .inProgress }
+  have hinv' : Inv orig { s' with uninit := s.uninit.filter (·.1 != (⟨true, entry⟩ : UKey)) } :=
+    h.inv.congr rfl rfl rfl rfl
+  have he : enableEntry s' = addAndEnable { s' with uninit := s.uninit.filter (·.1 != (⟨true, entry⟩ : UKey)) }
+      { addr := entry, kind := .entry } := enableEntry_eq s' entry h.ent h.others
+  have hfr := addAndEnable_frame { s' with uninit := s.uninit.filter (·.1 != (⟨true, entry⟩ : UKey)) }
+      { addr := entry, kind := .entry }
+  have hinv1 : Inv orig (enableEntry s') := by rw [he]; exact addAndEnable_inv hinv' ho _
+  have hfind1 : ∀ a, find? (enableEntry s').active a
+      = if a = entry then some { addr := entry, kind := .entry, saved := orig entry, enabled := true } else none := by
+    intro a; rw [he, addAndEnable_find? hinv' ho]
+    show _ = if a = entry then _ else _
+    split
+    · rfl
+    · show find? s.active a = none; rw [h.act]; rfl
+  have hτ1 : (enableEntry s').τ = s.τ := by rw [he]; exact hfr.τ
+  have hidx1 : (enableEntry s').idx = 0 := by rw [he]; exact hfr.idx.trans h.idx
+  have hst1 : (enableEntry s').status = .inProgress := by rw [he]; exact hfr.status
+  have hx1 : (enableEntry s').exitCode = s.exitCode := by rw [he]; exact hfr.exitCode
+  have hun1 : (enableEntry s').uninit = s.uninit.filter (·.1 != (⟨true, entry⟩ : UKey)) := by
+    rw [he]; exact hfr.uninit
+  -- `cont` traps immediately, on the entry breakpoint
+  have hcode1 : (enableEntry s').code entry = INT3 := by
+    rw [hinv1.text' entry, hfind1 entry]; simp
+  have hrun : (run (enableEntry s')).idx = 0 := by
+    show firstFrom _ (enableEntry s').τ (enableEntry s').idx = 0
+    rw [hτ1, hidx1]
+    exact firstFrom_here _ _ _ hlen (by rw [h0e, hcode1]; rfl)
+  have hpc : pc (run (enableEntry s')) = some entry := by
+    unfold pc; rw [hrun]; show (enableEntry s').τ[0]? = _; rw [hτ1, List.getElem?_eq_getElem hlen, h0e]
+  have hrinv := run_inv hinv1
+  rw [show fuelFor s = (s.τ.length + 1) + 1 from rfl,
+    traceLoop_entry _ _ entry { addr := entry, kind := .entry, saved := orig entry, enabled := true } hpc
+      (by show find? (enableEntry s').active entry = _; rw [hfind1]; simp) rfl]
+  -- `enable_all_breakpoints`
+  obtain ⟨a1, a2, a3, a4, a5, a6, a7⟩ := enableAll_spec hrinv ho
+  have huser : ∀ u ∈ (run (enableEntry s')).uninit,
+      u ∈ s.uninit ∧ u.2 = Kind.user ∧ u.1.global = false ∧ u.1.addr ≠ entry := by
+    intro u hu
+    have hu' : u ∈ s.uninit.filter (·.1 != (⟨true, entry⟩ : UKey)) := hun1 ▸ hu
+    obtain ⟨hu1, hu2⟩ := List.mem_filter.mp hu'
+    rcases h.others u hu1 with rfl | ⟨g, k, n⟩
+    · simp at hu2
+    · exact ⟨hu1, k, g, n⟩
+  have hany : ∀ a, (run (enableEntry s')).uninit.any (·.1.addr == a) = decide (a ∈ B) := by
+    intro a
+    rw [Bool.eq_iff_iff, List.any_eq_true, decide_eq_true_iff, h.mem a]
+    simp only [hasKey, List.any_eq_true]
+    constructor
+    · rintro ⟨u, hu, hua⟩
+      obtain ⟨h1, _, h3, _⟩ := huser u hu
+      refine ⟨u, h1, ?_⟩
+      have hua' : u.1.addr = a := by simpa using hua
+      obtain ⟨⟨g, ad⟩, k⟩ := u
+      simp_all
+    · rintro ⟨u, hu, hua⟩
+      have hua' : u.1 = ⟨false, a⟩ := by simpa using hua
+      refine ⟨u, ?_, by rw [hua']; simp⟩
+      show u ∈ (enableEntry s').uninit
+      rw [hun1]
+      exact List.mem_filter.mpr ⟨hu, by rw [hua']; simp⟩
+  have hkinds : ∀ a, kindAt (enableAll (run (enableEntry s'))).active a
+      = if a = entry then some .entry else if a ∈ B then some .user else none := by
+    intro a
+    rw [a7 a, foldl_lastKind_const .user _ (fun u hu => (huser u hu).2.1) a, hany a]
+    show (if decide (a ∈ B) = true then some Kind.user else kindAt (enableEntry s').active a) = _
+    unfold kindAt
+    rw [hfind1 a]
+    by_cases hae : a = entry
+    · subst hae; simp [hentB]
+    · by_cases hb : a ∈ B <;> simp [hae, hb]
+  have hlive : Live orig entry B (enableAll (run (enableEntry s'))) :=
+    ⟨a1, a4.trans hst1, a5, hkinds, hentB⟩
+  -- step over the entry breakpoint, then the generic loop
+  have hpc2 : pc (enableAll (run (enableEntry s'))) = some entry := by
+    unfold pc at hpc ⊢; rw [a2, a3]; exact hpc
+  obtain ⟨b, hfb⟩ : ∃ b, find? (enableAll (run (enableEntry s'))).active entry = some b := by
+    have := hkinds entry
+    unfold kindAt at this
+    cases hf : find? (enableAll (run (enableEntry s'))).active entry with
+    | none => rw [hf] at this; simp at this
+    | some b => exact ⟨b, rfl⟩
+  have hτ2 : (enableAll (run (enableEntry s'))).τ = s.τ := a2.trans hτ1
+  have hem : entry ∈ s.τ := h0e ▸ List.getElem_mem hlen
+  obtain ⟨g1, _, g3, g4, g5, g6, g7, g8⟩ := stepOver_at a1 ho entry b hpc2 hfb
+  rw [if_neg (hcc entry hem), a3, hrun] at g4
+  have hlive2 := hlive.of_same g1 g6 g7 g3
+  obtain ⟨r1, r2, r3, r4, r5, r6⟩ := traceLoop_live ho (s.τ.length + 1) _ hlive2
+    (by rw [g5, hτ2]; exact hcc) (by rw [g5, hτ2, g4]; omega)
+  rw [g5, hτ2, g4] at r3 r4 r5 r6
+  rw [g8, a6] at r4
+  have hskip : firstFrom (inB B) s.τ 0 = firstFrom (inB B) s.τ (0 + 1) :=
+    firstFrom_skip _ _ _ hlen (by rw [h0e]; simpa [inB] using hentB)
+  rw [hskip]
+  refine ⟨r1.trans (g5.trans hτ2), r2.trans (g8.trans (a6.trans hx1)), r3, ?_, r5,
+    fun hh => gone_of_exited (r6 hh).1 (r6 hh).2.1 (r6 hh).2.2⟩
+  rw [r4]; show answerAt s.τ (enableEntry s').exitCode _ = _; rw [hx1]
+
+theorem exec_start_fresh {orig entry B s} (ho : Bytes orig) (h : Fresh orig entry B s)
+    (hcc : ∀ a ∈ s.τ, orig a ≠ INT3) (hhead : s.τ.head? = some entry) :
+    (exec s .start).1.τ = s.τ ∧ (exec s .start).1.exitCode = s.exitCode ∧
+    (exec s .start).1.idx = firstFrom (inB B) s.τ 0 ∧
+    (exec s .start).2 = answerAt s.τ s.exitCode (firstFrom (inB B) s.τ 0) ∧
+    (firstFrom (inB B) s.τ 0 < s.τ.length → Live orig entry B (exec s .start).1) ∧
+    (s.τ.length ≤ firstFrom (inB B) s.τ 0 → Gone [] (exec s .start).1) := by
+  have e : exec s .start = traceLoop (fuelFor { s with pokes := [] })
+      (enableEntry { ({ s with pokes := [] } : St) with status := .inProgress }) := by
+    simp only [exec, h.st]
+  rw [e]
+  exact start_fresh ho h.pokes hcc hhead
+
+
 end BsVerif.Bp
